@@ -320,6 +320,15 @@ type Oracle struct {
 	// MaybeOps counts ops that were relaxed (in flight at a crash or failed with
 	// an injected error).
 	MaybeOps int
+	// Late holds appends that failed with an injected error. Their bytes may
+	// still sit in the file (un-fsynced) and a reopen may find them committed:
+	// like any operation with an unknown outcome they may take effect late, i.e.
+	// after operations acknowledged later in the same process, as long as they
+	// are legal (contiguous) at that point and displace nothing.
+	Late  []Op
+	fresh bool // no observation yet since Restart
+	// LateApplied counts reopens explained only by a late-applied failed append.
+	LateApplied int
 }
 
 func NewOracle() *Oracle {
@@ -401,6 +410,8 @@ func (or *Oracle) Failed(o Op) {
 	or.MaybeOps++
 	if o.Kind != OpAppend {
 		or.Mem = maybeAll(or.Mem, o)
+	} else {
+		or.Late = append(or.Late, o)
 	}
 	or.Disk = maybeAll(or.Disk, o)
 }
@@ -417,6 +428,7 @@ func (or *Oracle) Restart() {
 	for i, s := range or.Disk {
 		or.Mem[i] = s.Clone()
 	}
+	or.fresh = true
 }
 
 // Obs is what the harness read through the public API.
@@ -484,6 +496,30 @@ func (or *Oracle) Check(o *Obs, durable bool) string {
 		} else if firstDiff == "" {
 			firstDiff = d
 		}
+	}
+	if len(keep) == 0 && or.fresh && len(or.Late) > 0 {
+		for _, s := range or.Mem {
+			c := s.Clone()
+			applied := false
+			for _, l := range or.Late {
+				if len(l.Entries) > 0 && c.Legal(l) {
+					c.Apply(l)
+					applied = true
+				}
+			}
+			if applied && c.matchLog(o) == "" && c.matchStable(o) == "" {
+				keep = append(keep, c)
+				or.LateApplied++
+				if !durable {
+					or.Disk = append(or.Disk, c.Clone())
+				}
+				break
+			}
+		}
+	}
+	or.fresh = false
+	if durable {
+		or.Late = nil
 	}
 	if len(keep) == 0 {
 		return fmt.Sprintf("%s [none of %d candidate states matches]", firstDiff, len(or.Mem))
